@@ -35,7 +35,35 @@ def replay(chk, path):
 # gossip family (engine G): C02 C03 C04 C11 C13 C14 C17
 
 
-def _judge_trace(chk, v, sched_meta, what, invariants=None, module="TraceG"):
+def _ser_consts(c):
+    out = {}
+    for k, x in (c or {}).items():
+        if isinstance(x, vp.Sub):
+            out[k] = {"__sub__": x.s}
+        elif isinstance(x, vp.Raw):
+            out[k] = {"__raw__": x.s}
+        elif isinstance(x, (set, frozenset)):
+            out[k] = {"__set__": sorted(x)}
+        else:
+            out[k] = x
+    return out
+
+
+def _deser_consts(c):
+    out = {}
+    for k, x in (c or {}).items():
+        if isinstance(x, dict) and "__sub__" in x:
+            out[k] = vp.Sub(x["__sub__"])
+        elif isinstance(x, dict) and "__raw__" in x:
+            out[k] = vp.Raw(x["__raw__"])
+        elif isinstance(x, dict) and "__set__" in x:
+            out[k] = set(x["__set__"])
+        else:
+            out[k] = x
+    return out
+
+
+def _judge_trace(chk, v, sched_meta, what, invariants=None, module="TraceG", extra_consts=None):
     """Turns a trace verdict into VIOLATION / ok."""
     if v.violation:
         viol = v.violation
@@ -44,7 +72,7 @@ def _judge_trace(chk, v, sched_meta, what, invariants=None, module="TraceG"):
             json.dumps(viol["cmds"][-1]) if viol["cmds"] else "init")
         chk.violation({"kind": "gossip-trace", "sched": dict(sched_meta, behaviours=[viol["cmds"]]),
                        "invariant": viol["invariant"], "step_violations": viol["step_violations"],
-                       "invariants": invariants, "module": module}, why)
+                       "invariants": invariants, "module": module, "extra_consts": _ser_consts(extra_consts)}, why)
 
 
 def _geng_checks(chk, stats, what):
@@ -77,8 +105,10 @@ def run_schedules(chk, sched, label, nodes, invariants=None, module="TraceG", ex
             chk.sample({"engine": "geng", "what": label, "first_calls": lines})
     chk.traces += stats.get("behaviours", 0)
     chk.evaluations += stats.get("steps", 0)
-    meta = {k: sched[k] for k in sched if k not in ("behaviours",)}
-    _judge_trace(chk, v, meta, label, invariants, module)
+    # the replay file re-executes the failing behaviour only (not the walks / sweeps it came from); what the real
+    # code shuffles at random (the order of a digest) may differ on replay
+    meta = {k: sched[k] for k in sched if k not in ("behaviours", "walks", "hostile", "sweeps", "closure")}
+    _judge_trace(chk, v, meta, label, invariants, module, extra_consts)
     return v, stats
 
 
@@ -86,7 +116,8 @@ def replay_gossip(chk, obj):
     sched = obj["sched"]
     nodes = sched["nodes"]
     module = obj.get("module", "TraceG")
-    v, stats = run_schedules(chk, sched, "replay", nodes, invariants=obj.get("invariants"), module=module)
+    v, stats = run_schedules(chk, sched, "replay", nodes, invariants=obj.get("invariants"), module=module,
+                             extra_consts=_deser_consts(obj.get("extra_consts")))
     print("replay: not reproduced (%d steps, drift %d)" % (stats.get("steps", 0), v.drift))
 
 
